@@ -72,7 +72,9 @@ ASSUMPTIONS = [
     "statement is silent about the ends)",
     "fixed window: an admission exactly on a boundary instant k*W may be attributed to either adjacent aligned window (the "
     "float window size is ambiguous by <1 ns there); '2N in any window-length interval' is read for half-open intervals",
-    "window sizes are decimals that are whole numbers of nanoseconds (0.1, 0.3, 0.007 ...); rates may be arbitrary (3, 7, 0.3)",
+    "window sizes are decimals that are whole numbers of nanoseconds (0.1, 0.3, 0.007, and 4.1, 2.01, 1.001, 0.00401 ... whose "
+    "float value times 1e9 truncates to 1 ns less); the sliding bound is judged against the configured window as an exact "
+    "rational, not against the truncated nanosecond value; rates may be arbitrary (3, 7, 0.3)",
     "token/adaptive bucket bounds are evaluated exactly (rationals) with a slack of 1e-9 token (1e-6 for adaptive), because "
     "the repo accumulates tokens in binary floating point; an over-admission of >= 1 ns * rate tokens is still caught for rate >= 1/s",
     "adaptive: the bound over [a,b] uses R = the largest current_rate in effect at any moment of the closed interval "
@@ -99,7 +101,7 @@ EXPECTED_PROBES = [
     "probe.distributed_sequential_bound_checked", "probe.distributed_sequential_bound_checked_with_latency",
     "probe.distributed_latency_forward_delivered", "probe.fixed_boundary_poll_drained",
     "probe.fixed_inexact_window_boundary_poll_drained", "probe.inductor_subns_interval_poll_drained",
-    "probe.inductor_queued", "probe.large_base_offset",
+    "probe.sliding_truncated_window_expiry_attempt", "probe.inductor_queued", "probe.large_base_offset",
 ]
 SHRINK_SKIP = ("kind", "type", "mode")
 
@@ -108,6 +110,10 @@ POLICIES = ["token", "leaky", "sliding", "fixed", "adaptive"]
 RATES = [3.0, 7.0, 0.3, 1.0, 10.0, 100.0, 2.5, 1000.0, 0.7, 13.0, 5.0]
 WINDOWS = [0.1, 0.3, 1.0, 0.25, 0.007, 0.05, 0.7, 1.1, 2.5, 0.29, 0.6, 0.001]
 EXACT_WINDOWS = [0.25, 0.5, 1.0, 0.125, 2.0, 0.0625]
+# decimals whole in nanoseconds whose float value times 1e9 falls just BELOW the integer, so the repo's truncating
+# conversions (Instant - float, Duration.from_seconds) see a window 1 ns shorter than the configured one
+TRUNC_WINDOWS = [4.1, 2.01, 1.001, 8.2, 0.00013, 0.00104, 0.00401, 0.0157, 0.00836]
+assert all(int(w * 1e9) == round(w * 1e9) - 1 for w in TRUNC_WINDOWS)
 QUEUE_CAPS = [0, None, 1, 2, 3, 5, 50]
 BASES = [0, 0, 0, 0, 0, 0, 1_000 * NS, 86_400 * NS, 1_000_000 * NS]
 DEFAULT_CAP = {"entity": 1000, "inductor": 10_000}
@@ -162,9 +168,9 @@ def _gen_policy(rng, ptype, avoid):
     if ptype == "leaky":
         return {"type": "leaky", "rate": rng.choice(RATES)}
     if ptype == "sliding":
-        return {"type": "sliding", "window": rng.choice(WINDOWS), "max": rng.choice([1, 1, 2, 3, 5, 10])}
+        return {"type": "sliding", "window": rng.choice(WINDOWS + TRUNC_WINDOWS), "max": rng.choice([1, 1, 2, 3, 5, 10])}
     if ptype == "fixed":
-        return {"type": "fixed", "window": rng.choice(WINDOWS + EXACT_WINDOWS[:3]), "n": rng.choice([1, 1, 2, 3, 5])}
+        return {"type": "fixed", "window": rng.choice(WINDOWS + EXACT_WINDOWS[:3] + TRUNC_WINDOWS[:5]), "n": rng.choice([1, 1, 2, 3, 5])}
     w = rng.choice([1.0, 1.0, 0.5, 2.0, 0.1, 0.3])
     mn = {1.0: [1.0, 2.0, 5.0], 0.5: [2.0, 3.0, 10.0], 2.0: [0.5, 1.0, 3.0], 0.1: [10.0, 20.0, 50.0],
           0.3: [4.0, 5.0, 10.0]}[w]
@@ -484,6 +490,8 @@ class _QueueingRun:
         dd = depth - self.prev_depth
         self.prev, self.prev_depth = cur, depth
         e = self.ecls
+        if self.predicted == t and self.info is not None and self.info.get("trunc_ns", self.win) != self.win:
+            self.flags["trunc_expiry_attempt"] = 1     # an attempt exactly at oldest + trunc(W*1e9) ns, 1 ns inside the window
         if depth > self.cap:
             raise Violation(f"C10/queue-exceeds-capacity/{e}/depth", f"queue depth {depth} > queue_capacity {self.cap} at t={t}ns")
         if ev.event_type == self.poll_type:
@@ -622,7 +630,7 @@ class _QueueingRun:
             elif t == "leaky":
                 b = M.bound_leaky(ts, i["rate"])
             elif t == "sliding":
-                b = M.bound_sliding(ts, i["win_ns"], i["n"])
+                b = M.bound_sliding(ts, i["win_exact"], i["n"])
             elif t == "fixed":
                 b = M.bound_fixed(ts, i["win_ns"], i["n"])
             else:
@@ -671,6 +679,7 @@ def _run_queueing(sc):
         "probe.fixed_boundary_poll_drained": fl["fixed_boundary_drain"],
         "probe.fixed_inexact_window_boundary_poll_drained": fl["fixed_inexact_boundary_drain"],
         "probe.inductor_subns_interval_poll_drained": fl["inductor_subns_drain"],
+        "probe.sliding_truncated_window_expiry_attempt": fl["trunc_expiry_attempt"],
         "checks.tua_zero": pr.n_zero if pr else 0, "checks.tua_positive": pr.n_pos if pr else 0,
         "checks.tua_no_acquire_samples": pr.samples if pr else 0,
         "requests.delivered": len(h.arrived), "requests.forwarded": len(h.sink_log), "requests.dropped": len(h.dropped),
